@@ -29,6 +29,8 @@ All(checkAgree) == LET sr == StdParse(lit)
                       /\ Assert(dr.ok => sr.ok /\ dr.phs = sr.phs, <<"P_DmSubset", lit>>)
                       /\ Assert(checkAgree => AgreeR(sr, dr), <<"P_C03_Agree", lit>>)
                       /\ (EmitCases => PrintT(<<"CASE", ToJson(CaseRec(lit, sr, dr))>>))
+\* C18: a placeholder that parses consumes at least "{}" - the scan in format_string always advances
+P_C18_Progress == \A i \in 1..Len(lit) : lit[i] = "{" /\ DmFormatAt(lit, i + 1).ok => DmFormatAt(lit, i + 1).end > i + 1
 AllWithAgree == All(TRUE)
 AllNoAgree   == All(FALSE)
 =============================================================================
